@@ -581,6 +581,9 @@ def _one_call(case, ctx, F, c, ci, route, plan, tmp, ref_verdict, clauses, n,
     if case["installed"][name].get("shape", {}).get("no_model") and \
             rec.get("verdict"):
         ctx.fault("solver_prints_no_model")
+        if res[0] == "exc" and c["method"] == "is_satisfiable":
+            # the verdict was given: is_satisfiable() needs nothing else
+            bad_exc("verdict-withheld", res[1])
         if res[0] == "exc":
             if not _is_runtime_error(res[1]):
                 bad_exc("failing-solver-not-RuntimeError", res[1])
@@ -615,7 +618,11 @@ def _one_call(case, ctx, F, c, ci, route, plan, tmp, ref_verdict, clauses, n,
         bad("sat-witness-not-ints", "%r" % (A,))
     if [abs(x) for x in A] != sorted(abs(x) for x in A):
         bad("witness-not-ordered-by-variable", "%r" % (A,))
-    if set(A) != set(rec["model"]) or len(A) != len(rec["model"]):
+    # the solver's model, possibly completed on variables that occur in no
+    # clause (some solvers do not print those)
+    if not set(rec["model"]) <= set(A) or len(A) not in (len(rec["model"]),
+                                                         n) or \
+            [abs(x) for x in A] != list(range(1, len(A) + 1)):
         bad("witness-differs-from-solver-model", "solver printed %r, got %r"
             % (rec["model"], A))
     if not cnfref.satisfies(clauses, A):
